@@ -104,14 +104,19 @@ def events_of(h):
     return C.cq_list([event(e["m"]) for e in h["events"]])
 
 
-def case_term(fn, c):
+def case_term(fn, c, with_erased=False):
     """fn: name of the Coq function of Arb.Cases (or a property-specific file) taking
        id cfg events obs final alts"""
     main = c["histories"][0]
-    alts = C.cq_list(["(%s, %s)" % (events_of(h), obs(h["final"], full=False)) for h in c["histories"][1:]])
-    return "%s %d (mkCfg %s %s) %s %s %s %s" % (
+    others = [h for h in c["histories"][1:] if h["label"] != "erased"]
+    alts = C.cq_list(["(%s, %s)" % (events_of(h), obs(h["final"], full=False)) for h in others])
+    extra = ""
+    if with_erased:
+        er = [h for h in c["histories"] if h["label"] == "erased"][0]
+        extra = " %s %s" % (events_of(er), C.cq_list([obs(o) for o in er["steps"]]))
+    return "%s %d (mkCfg %s %s) %s %s %s %s%s" % (
         fn, c["id"], C.cq_bool(c["tls_passthrough"]), C.cq_bool(c["cert_manager"]), events_of(main),
-        C.cq_list([obs(o) for o in main["steps"]]), obs(main["final"], full=False), alts)
+        C.cq_list([obs(o) for o in main["steps"]]), obs(main["final"], full=False), alts, extra)
 
 
 def generate(run, n, tag="arb"):
@@ -132,7 +137,7 @@ def replay_cases(run, path):
     return C.read_jsonl(out)
 
 
-def evaluate(run, cases, fn="arb_case", imports="Arb.Types Arb.Model Arb.Spec Arb.Cases", shard=25, tag="arb"):
+def evaluate(run, cases, fn="arb_case", imports="Arb.Types Arb.Model Arb.Spec Arb.Cases", shard=25, tag="arb", with_erased=False, extra=None):
     """returns {case id: row}"""
     good = [c for c in cases if not c.get("error")]
     shards = [good[i:i + shard] for i in range(0, len(good), shard)]
@@ -140,7 +145,7 @@ def evaluate(run, cases, fn="arb_case", imports="Arb.Types Arb.Model Arb.Spec Ar
     def one(args):
         k, part = args
         body = "From NIC Require Import Base.SMap %s.\n" % imports
-        body += "Definition results : list (list Z) := Eval vm_compute in\n  [" + ";\n   ".join(case_term(fn, c) for c in part) + "].\n"
+        body += "Definition results : list (list Z) := Eval vm_compute in\n  [" + ";\n   ".join(case_term(fn, c, with_erased) + (" " + extra(c) if extra else "") for c in part) + "].\n"
         body += "Print results.\n"
         path = os.path.join(C.WORK, "cases", "%s_%s_%s_%d.v" % (tag, run.pid, run.tier, k))
         C.write_cases_v(path, body)
